@@ -402,6 +402,9 @@ class STensor:
     def __getitem__(self, idx: Any) -> Any:
         return dispatch("getitem", None, (self, idx), {})
 
+    def __iter__(self) -> Any:
+        return iter([self[i] for i in range(len(self))])
+
     def backward(self, gradient: Any = None) -> None:
         g = gradient.lc if isinstance(gradient, STensor) else (gradient if isinstance(gradient, LC) else lc_leaf("G_out"))
         backward(self, g)
@@ -1037,6 +1040,70 @@ HANDLERS: Dict[str, Callable[..., Any]] = {
 }
 
 
+# =============================================================================== einops shim
+def _parse_side(side: str) -> List[Any]:
+    out: List[Any] = []
+    i, toks = 0, side.replace("(", " ( ").replace(")", " ) ").split()
+    cur: Optional[List[str]] = None
+    for t in toks:
+        if t == "(":
+            cur = []
+        elif t == ")":
+            out.append(cur)
+            cur = None
+        elif cur is not None:
+            cur.append(t)
+        else:
+            out.append(t)
+    return out
+
+
+class EinopsShim:
+    """Stands in for `einops` inside unit_scaling._modules: rearrange on symbolic tensors is an opaque reshaping
+    stub whose symbolic output shape is derived from the pattern (validated against real einops on the meta tensor)."""
+
+    def __getattr__(self, name: str) -> Any:
+        import einops
+        return getattr(einops, name)
+
+    def rearrange(self, t: Any, pattern: str, **axes: Any) -> Any:
+        import einops
+        if not isinstance(t, STensor):
+            return einops.rearrange(t, pattern, **axes)
+        meta = einops.rearrange(t.meta, pattern, **{k: _meta_args(v) for k, v in axes.items()})
+        lhs, rhs = (_parse_side(s) for s in pattern.split("->"))
+        if len(lhs) != len(t.shape):
+            raise HarnessError(f"einops pattern {pattern} vs rank {len(t.shape)}")
+        size: Dict[str, Any] = dict(axes)
+        for item, d in zip(lhs, t.shape):
+            if isinstance(item, str):
+                size[item] = d
+            else:
+                unknown = [n for n in item if n not in size]
+                known: Any = 1
+                for n in item:
+                    if n in size:
+                        known = known * size[n]
+                if len(unknown) == 1:
+                    size[unknown[0]] = d // known
+                elif unknown:
+                    raise HarnessError("einops: more than one unknown axis in a group")
+        shape = []
+        for item in rhs:
+            if isinstance(item, str):
+                shape.append(size[item])
+            else:
+                v: Any = 1
+                for n in item:
+                    v = v * size[n]
+                shape.append(v)
+        st = {"pattern": pattern, **{k: (str(v.e) if isinstance(v, SInt) else v) for k, v in axes.items()}}
+        return opaque("rearrange", [t], st, tuple(shape), meta)
+
+
+EINOPS = EinopsShim()
+
+
 # =============================================================================== builtin shims
 class FShim:
     """Stands in for `torch.nn.functional` inside unit_scaling modules during a session: C-implemented functions
@@ -1160,6 +1227,9 @@ class Session:
             return orig_bs(*shapes)
 
         patch(torch, "broadcast_shapes", bshapes)
+        import unit_scaling._modules as um
+        patch(um, "einops", EINOPS)
+        patch(um, "F", TF)
         patch(uf, "F", TF)
         patch(uf, "log", sym_log)
         patch(uf, "prod", MathShim.prod)
